@@ -8,6 +8,8 @@ from . import common
 def _ops(p, acc=None):
     acc = set() if acc is None else acc
     acc.add(p['op'])
+    if 'ag' in p:                      # the function of apply() is an operation too
+        _ops(p['ag'], acc)
     for k in ('in', 'in2'):
         if k in p:
             _ops(p[k], acc)
